@@ -25,6 +25,8 @@ BOUNDS = {
 LONGLIST = '[' + ', '.join(str(i) for i in range(40)) + ']'
 LONGCHAIN = '1' + ' + 1' * 400
 SOURCES = ['1', ' 1', '1 ', '\n1', '1\n', '\f1', '1\f', '1\xa0', '1\r', '[1, 2]', '{"a": [1]}', '{"a": {"b": 1}}', 'x = [1]; x', 'f = v => [v]; f(1)',
+           # different programs whose token VALUES coincide (a name / a string / a number of the same spelling)
+           '"1"', 'k == "l"', 'k == l', '%l% | len', '"l" | len',
            '1 +', 'u', 'x = 7\ny = = 2', 'push(l, 9)\n1 +', 'x = 8;\n\n)', 'map(l, v => v + k)', '[[1], {"c": [2]}]', 'x = {"a": {"b": [1]}}; x["a"]', 'l', 'push(l, 3); l',
            'r = []; push(r, [0]); r', 'k if k else [k]',
            'k\n-1', 'k -1', 'len(l)\n[2]', 'len(l) [2]', 'k == "a  b"', 'k == "a b"', '\n\nx = = 1', 'x = = 1', 'x = 1\nk', 'x = 1 k', ' [1,\n 2] ', '[1, 2]\n', 'len([1, 2 3', 'x = 10\ny = 2\nx * y', 'k(', '{"a": [1,\n2 3]}', 'fa(10)',
@@ -287,7 +289,7 @@ def deep_actions():
             or (a[0] == 'parse' and a[1] in PARSE_AGAIN) or (a[0] == 'eval' and a[1] in PARSE_AGAIN and a[2] == 'P' and a[3] is None)]
 
 
-CORE_SOURCES = {'x = 7\ny = = 2', 'push(l, 9)\n1 +', 'len("caf\u00e9")', 'len("cafe\u0301")', '"\ud83d" + "x"', LONGLIST, 'pop(' + LONGLIST + ')', '[]', '{}', 'k if False else []', '"a  b" | len', '"a b" | len', '{"a": {"b": 1}}', 'map(l, v => v + k)', 'len([1, 2 3', 'x = 10\ny = 2\nx * y', '\f1', '1', 'k\n-1', 'k -1'}
+CORE_SOURCES = {'"1"', 'k == "l"', 'k == l', 'x = 7\ny = = 2', 'push(l, 9)\n1 +', 'len("caf\u00e9")', 'len("cafe\u0301")', '"\ud83d" + "x"', LONGLIST, 'pop(' + LONGLIST + ')', '[]', '{}', 'k if False else []', '"a  b" | len', '"a b" | len', '{"a": {"b": 1}}', 'map(l, v => v + k)', 'len([1, 2 3', 'x = 10\ny = 2\nx * y', '\f1', '1', 'k\n-1', 'k -1'}
 
 
 def core_actions():
